@@ -72,7 +72,7 @@ def base_forms(tier):
                                     "setings": [{"a": "1"}], "entites": [{"a": "1"}]}))
     # cells holding line breaks, tabs, quotes and separators (quoted CSV fields, inline strings in xlsx, BIFF labels)
     out.append(("multiline", {"survey": [{"type": "text", "name": "q", "label": "Line1\nLine2", "hint": "tab\there, comma; \"quoted\""},
-                                         {"type": "select_one c", "name": "s", "label": "S\n\nafter blank line", "constraint": ". != 'a'", "constraint_message": "m1\nm2"}],
+                                         {"type": "select_one c", "name": "s", "label": "S\n\nafter blank line", "constraint": "regex(., 'a|b|c|d|e|f') and . != 'a'", "constraint_message": "m1\nm2"}],
                               "choices": [{"list_name": "c", "name": "x", "label": "Yes\n(start now)"}, {"list_name": "c", "name": "y", "label": "a|b \\ c"}],
                               "settings": [{"form_title": "T,1 \"x\"", "form_id": "ml"}]}))
     # broken workbooks: the refusal (error type, text, cited row) must be the same through every container
